@@ -22,7 +22,8 @@ META = {
         "construction works on a fresh list. csv quoting is not decided."
         " Also: the header decision derives from `mode` and an existence test in both writers, both scrubbers hand a plain cell over unchanged, wrappers delegate to the method of their own name, 'ilots' cannot raise on lot divisions, joined elements are visibly str."
         ' Round 7: the collectors behind the writers keep every element (no identity / membership filter on insert); result caches on the description are keyed by value.'
-        ' Round 8: list cells are written entry by entry (no dict.fromkeys de-duplication); no first-element fast path in _from_multiple.'),
+        ' Round 8: list cells are written entry by entry (no dict.fromkeys de-duplication); no first-element fast path in _from_multiple.'
+        ' Round 9: tracts_to_csv opens the file on every call; attribute names are not de-duplicated.'),
     'families': ['TBL', 'EXC', 'SIB', 'ESCAPE', 'FORWARD', 'DEADPARAM', 'SIB-DEFAULTS'],
 }
 
